@@ -397,6 +397,92 @@ theorem nen_disagree_unlisted :
     nenWinner "c" "A" [] [("c", genEnc ["X", "A"])] = 0 := by
   decide
 
+/-! ### the generator's verdicts depend on the ballot dict only as a finite map -/
+
+theorem dget_iff_mem {ν : Type} {d : List (α × ν)} (h : (d.map (·.1)).Nodup) (c : α) (v : ν) :
+    dget d c = some v ↔ (c, v) ∈ d := by
+  refine ⟨dget_mem, ?_⟩
+  induction d with
+  | nil => simp
+  | cons q d ih =>
+    simp only [List.map_cons, List.nodup_cons, List.mem_map, not_exists, not_and] at h
+    intro hm
+    rcases List.mem_cons.1 hm with hm | hm
+    · subst hm; simp [dget]
+    · have : q.1 ≠ c := fun hq => h.1 (c, v) hm hq.symm
+      simp only [dget, this, if_false]
+      exact ih h.2 hm
+
+theorem dget_congr {ν : Type} {d d' : List (α × ν)} (h : (d.map (·.1)).Nodup) (h' : (d'.map (·.1)).Nodup)
+    (hm : ∀ p, p ∈ d ↔ p ∈ d') (c : α) : dget d c = dget d' c := by
+  apply Option.ext
+  intro v
+  rw [dget_iff_mem h, dget_iff_mem h', hm]
+
+theorem ranking_congr {g g' : GBallot α} (h : (g.map (·.1)).Nodup) (h' : (g'.map (·.1)).Nodup)
+    (hm : ∀ p, p ∈ g ↔ p ∈ g') (c : α) : ranking c g = ranking c g' := by
+  unfold ranking; rw [dget_congr h h' hm]
+
+theorem voteForCand_congr {g g' : GBallot α} (h : (g.map (·.1)).Nodup) (h' : (g'.map (·.1)).Nodup)
+    (hm : ∀ p, p ∈ g ↔ p ∈ g') (c : α) (E : List α) : voteForCand c E g = voteForCand c E g' := by
+  unfold voteForCand
+  rw [ranking_congr h h' hm]
+  have : ∀ f : α × Nat → Bool, g.any f = g'.any f := by
+    intro f
+    rw [Bool.eq_iff_iff, List.any_eq_true, List.any_eq_true]
+    constructor
+    · rintro ⟨p, hp, hf⟩; exact ⟨p, (hm p).1 hp, hf⟩
+    · rintro ⟨p, hp, hf⟩; exact ⟨p, (hm p).2 hp, hf⟩
+  simp only [this]
+
+theorem map_fst_encFrom (k : Nat) (r : List α) : (encFrom k r).map (·.1) = r := by
+  induction r generalizing k with
+  | nil => rfl
+  | cons c cs ih => simp [encFrom, ih]
+
+theorem nodup_of_keys_nodup {ν : Type} {d : List (α × ν)} (h : (d.map (·.1)).Nodup) : d.Nodup :=
+  List.Pairwise.of_map (·.1) (fun a b hab h' => hab (by rw [h'])) h
+
+theorem keys_nodup_genEnc (r : List α) (hnd : r.Nodup) : ((genEnc r).map (·.1)).Nodup := by
+  unfold genEnc; rw [map_fst_encFrom]; exact hnd
+
+
+/-- two generator-side dicts that are the same finite map: keys unique, same entries, possibly listed in a
+different order (`load_contests_from_raire` lists a ballot's candidates in the order of the contest line) -/
+def SameMap (g g' : GBallot α) : Prop :=
+  (g.map (·.1)).Nodup ∧ (g'.map (·.1)).Nodup ∧ ∀ x, x ∈ g ↔ x ∈ g'
+
+theorem SameMap.refl_genEnc (r : List α) (hnd : r.Nodup) : SameMap (genEnc r) (genEnc r) :=
+  ⟨keys_nodup_genEnc r hnd, keys_nodup_genEnc r hnd, fun _ => Iff.rfl⟩
+
+/-- all four generator verdicts see the ballot dict only as a finite map -/
+theorem gen_verdicts_sameMap {cvr cvr' : GCvr κ α} {cid : κ} {g g' : GBallot α}
+    (h : dget cvr cid = some g) (h' : dget cvr' cid = some g') (hs : SameMap g g') (w l : α) (E : List α) :
+    nebWinner cid w cvr = nebWinner cid w cvr' ∧ nebLoser cid w l cvr = nebLoser cid w l cvr' ∧
+    nenWinner cid w E cvr = nenWinner cid w E cvr' ∧ nenLoser cid l E cvr = nenLoser cid l E cvr' := by
+  obtain ⟨h1, h2, h3⟩ := hs
+  refine ⟨?_, ?_, ?_, ?_⟩
+  · unfold nebWinner; rw [h, h']; simp only [ranking_congr h1 h2 h3]
+  · unfold nebLoser; rw [h, h']; simp only [ranking_congr h1 h2 h3]
+  · unfold nenWinner; rw [h, h']; simp only [voteForCand_congr h1 h2 h3]
+  · unfold nenLoser; rw [h, h']; simp only [voteForCand_congr h1 h2 h3]
+
+/-- `neb_agree` / `nen_agree` for a generator card whose dict is the same finite map as `{c ↦ k}` -/
+theorem agree_sameMap {votes : Votes κ α} {cvr : GCvr κ α} {cid : κ} {r : List α} {g : GBallot α}
+    (ha : dget votes cid = some (auditEnc r)) (hg : dget cvr cid = some g) (hs : SameMap g (genEnc r))
+    (w l : α) :
+    nebAssort votes cid w l = ((nebWinner cid w cvr - nebLoser cid w l cvr + 1 : Int) : Rat) / 2 ∧
+    ∀ (cands E : List α), (∀ a ∈ r, a ∈ cands) → w ∈ cands → l ∈ cands →
+      nenAssort votes cid w l (remnOf cands E)
+        = ((nenWinner cid w E cvr - nenLoser cid l E cvr + 1 : Int) : Rat) / 2 := by
+  have hg' : dget [(cid, genEnc r)] cid = some (genEnc r) := by simp [dget]
+  constructor
+  · obtain ⟨e1, e2, _, _⟩ := gen_verdicts_sameMap hg hg' hs w l []
+    rw [e1, e2]; exact (neb_agree ha hg' w l).2.2
+  · intro cands E hr hw hl
+    obtain ⟨_, _, e3, e4⟩ := gen_verdicts_sameMap hg hg' hs w l E
+    rw [e3, e4]; exact (nen_agree ha hg' cands E hr w l hw hl).2.2
+
 /-! ### means and tallies -/
 
 theorem sum_half {π : Type} (ps : List π) (gw gl : π → Int) :
@@ -460,11 +546,13 @@ theorem mean_iff_generic {π : Type} (ps : List π) (assort : π → Rat) (gw gl
 
 
 /-- The audit's record `p.1` and the generator's record `p.2` of one card are *aligned* for contest `cid`
-over the candidate list `cands` when either neither contains the contest, or they hold the two encodings of
-one ranking whose candidates all belong to `cands`. -/
+over the candidate list `cands` when either neither contains the contest, or for some duplicate-free ranking
+`r` of candidates of `cands` the audit holds `{c ↦ k+1}` and the generator holds a dict that is the same
+finite map as `{c ↦ k}`. -/
 def Aligned (cid : κ) (cands : List α) (p : Votes κ α × GCvr κ α) : Prop :=
   (dget p.1 cid = none ∧ dget p.2 cid = none) ∨
-  ∃ r : List α, (∀ a ∈ r, a ∈ cands) ∧ dget p.1 cid = some (auditEnc r) ∧ dget p.2 cid = some (genEnc r)
+  ∃ (r : List α) (g : GBallot α), r.Nodup ∧ (∀ a ∈ r, a ∈ cands) ∧
+    dget p.1 cid = some (auditEnc r) ∧ dget p.2 cid = some g ∧ SameMap g (genEnc r)
 
 theorem assorterMean_pairs (assort : Votes κ α → Rat) (cid : κ) (ps : List (Votes κ α × GCvr κ α))
     (useStyle : Bool) :
@@ -480,7 +568,7 @@ theorem aligned_dropped {cid : κ} {cands : List α} {p : Votes κ α × GCvr κ
   have hc : hasContest p.1 cid = false := by
     cases useStyle <;> simp_all
   unfold hasContest at hc
-  rcases h with ⟨_, h⟩ | ⟨r, _, h, _⟩
+  rcases h with ⟨_, h⟩ | ⟨r, g, _, _, h, _⟩
   · exact h
   · rw [h] at hc; simp at hc
 
@@ -500,9 +588,9 @@ theorem mean_gt_half_iff_tally (cid : κ) (cands : List α) (w l : α) (ps : Lis
     (fun p => nebLoser cid w l p.2) (fun p => !useStyle || hasContest p.1 cid)
     (by
       intro p hp
-      rcases h p hp with ⟨ha, hg⟩ | ⟨r, _, ha, hg⟩
+      rcases h p hp with ⟨ha, hg⟩ | ⟨r, g, _, _, ha, hg, hs⟩
       · exact (neb_agree_absent ha hg w l).2.2
-      · exact (neb_agree ha hg w l).2.2)
+      · exact (agree_sameMap ha hg hs w l).1)
     (by
       intro p hp hk
       have hg := aligned_dropped (h p hp) hk
@@ -529,9 +617,9 @@ theorem mean_gt_half_iff_tally_nen (cid : κ) (cands E : List α) (w l : α) (hw
     (fun p => !useStyle || hasContest p.1 cid)
     (by
       intro p hp
-      rcases h p hp with ⟨ha, hg⟩ | ⟨r, hr, ha, hg⟩
+      rcases h p hp with ⟨ha, hg⟩ | ⟨r, g, _, hr, ha, hg, hs⟩
       · exact (nen_agree_absent ha hg w l E _).2.2
-      · exact (nen_agree ha hg cands E hr w l hw hl).2.2)
+      · exact (agree_sameMap ha hg hs w l).2 cands E hr hw hl)
     (by
       intro p hp hk
       have hg := aligned_dropped (h p hp) hk
@@ -659,11 +747,6 @@ theorem mem_dictSet (d : List (α × ν)) (k : α) (v : ν) (h : (d.map (·.1)).
 end DictLemmas
 
 /-! audit reader -/
-
-theorem map_fst_encFrom (k : Nat) (r : List α) : (encFrom k r).map (·.1) = r := by
-  induction r generalizing k with
-  | nil => rfl
-  | cons c cs ih => simp [encFrom, ih]
 
 theorem encFrom_shift (k : Nat) (r : List α) :
     (encFrom (k + 2) r).map (fun p => (p.1, (p.2 : Int) - 1))
@@ -810,12 +893,6 @@ theorem mem_loadRaireBallot (cands prefs : List α) :
   rw [h.2 (by simp) p]
   simp
 
-theorem nodup_of_keys_nodup {ν : Type} {d : List (α × ν)} (h : (d.map (·.1)).Nodup) : d.Nodup :=
-  List.Pairwise.of_map (·.1) (fun a b hab h' => hab (by rw [h'])) h
-
-theorem keys_nodup_genEnc (r : List α) (hnd : r.Nodup) : ((genEnc r).map (·.1)).Nodup := by
-  unfold genEnc; rw [map_fst_encFrom]; exact hnd
-
 /-- for a duplicate-free ranking of listed candidates the generator reader's dict has exactly the entries of
 `{c ↦ k}` (in the order of the candidate list rather than of the ranking) -/
 theorem loadRaireBallot_mem_iff (cands prefs : List α) (hnd : prefs.Nodup) (hsub : ∀ c ∈ prefs, c ∈ cands)
@@ -873,44 +950,6 @@ theorem readers_agree (cands prefs : List α) (hnd : prefs.Nodup) (hsub : ∀ c 
   exact ⟨h1, (mem_loadRaireBallot cands prefs).1, loadRaireBallot_mem_iff cands prefs hnd hsub, h4, h5,
     h4.trans h5.symm⟩
 
-/-! ### the generator's verdicts depend on the ballot dict only as a finite map -/
-
-theorem dget_iff_mem {ν : Type} {d : List (α × ν)} (h : (d.map (·.1)).Nodup) (c : α) (v : ν) :
-    dget d c = some v ↔ (c, v) ∈ d := by
-  refine ⟨dget_mem, ?_⟩
-  induction d with
-  | nil => simp
-  | cons q d ih =>
-    simp only [List.map_cons, List.nodup_cons, List.mem_map, not_exists, not_and] at h
-    intro hm
-    rcases List.mem_cons.1 hm with hm | hm
-    · subst hm; simp [dget]
-    · have : q.1 ≠ c := fun hq => h.1 (c, v) hm hq.symm
-      simp only [dget, this, if_false]
-      exact ih h.2 hm
-
-theorem dget_congr {ν : Type} {d d' : List (α × ν)} (h : (d.map (·.1)).Nodup) (h' : (d'.map (·.1)).Nodup)
-    (hm : ∀ p, p ∈ d ↔ p ∈ d') (c : α) : dget d c = dget d' c := by
-  apply Option.ext
-  intro v
-  rw [dget_iff_mem h, dget_iff_mem h', hm]
-
-theorem ranking_congr {g g' : GBallot α} (h : (g.map (·.1)).Nodup) (h' : (g'.map (·.1)).Nodup)
-    (hm : ∀ p, p ∈ g ↔ p ∈ g') (c : α) : ranking c g = ranking c g' := by
-  unfold ranking; rw [dget_congr h h' hm]
-
-theorem voteForCand_congr {g g' : GBallot α} (h : (g.map (·.1)).Nodup) (h' : (g'.map (·.1)).Nodup)
-    (hm : ∀ p, p ∈ g ↔ p ∈ g') (c : α) (E : List α) : voteForCand c E g = voteForCand c E g' := by
-  unfold voteForCand
-  rw [ranking_congr h h' hm]
-  have : ∀ f : α × Nat → Bool, g.any f = g'.any f := by
-    intro f
-    rw [Bool.eq_iff_iff, List.any_eq_true, List.any_eq_true]
-    constructor
-    · rintro ⟨p, hp, hf⟩; exact ⟨p, (hm p).1 hp, hf⟩
-    · rintro ⟨p, hp, hf⟩; exact ⟨p, (hm p).2 hp, hf⟩
-  simp only [this]
-
 /-- **C14, one row through both readers.** A card on which the audit holds what `CVR.from_raire` read from a
 row and the generator holds what `load_contests_from_raire` read from the same row (duplicate-free `prefs` of
 listed candidates): every NEB assertion, and every NEN assertion with winner and loser in `cands` and any
@@ -925,22 +964,9 @@ theorem row_agree {votes : Votes κ α} {cvr : GCvr κ α} {cid : κ} (cands pre
         = ((nenWinner cid w E cvr - nenLoser cid l E cvr + 1 : Int) : Rat) / 2 := by
   obtain ⟨h1, h2, h3, _⟩ := readers_agree cands prefs hnd hsub
   rw [h1] at ha
-  have hk := keys_nodup_genEnc prefs hnd
-  -- a generator card holding the canonical encoding gives the same verdicts
-  have e1 : nebWinner cid w cvr = nebWinner cid w [(cid, genEnc prefs)] := by
-    unfold nebWinner; rw [hg]; simp [dget, ranking_congr h2 hk h3]
-  have e2 : nebLoser cid w l cvr = nebLoser cid w l [(cid, genEnc prefs)] := by
-    unfold nebLoser; rw [hg]; simp [dget, ranking_congr h2 hk h3]
-  have e3 : ∀ E c, nenWinner cid c E cvr = nenWinner cid c E [(cid, genEnc prefs)] := by
-    intro E c; unfold nenWinner; rw [hg]; simp [dget, voteForCand_congr h2 hk h3]
-  have e4 : ∀ E c, nenLoser cid c E cvr = nenLoser cid c E [(cid, genEnc prefs)] := by
-    intro E c; unfold nenLoser; rw [hg]; simp [dget, voteForCand_congr h2 hk h3]
-  have hg' : dget [(cid, genEnc prefs)] cid = some (genEnc prefs) := by simp [dget]
-  refine ⟨?_, ?_⟩
-  · rw [e1, e2]; exact (neb_agree ha hg' w l).2.2
-  · intro E hw hl
-    rw [e3, e4]; exact (nen_agree ha hg' cands E hsub w l hw hl).2.2
-
+  have hs : SameMap (loadRaireBallot cands prefs) (genEnc prefs) := ⟨h2, keys_nodup_genEnc prefs hnd, h3⟩
+  obtain ⟨e1, e2⟩ := agree_sameMap ha hg hs w l
+  exact ⟨e1, fun E hw hl => e2 cands E hsub hw hl⟩
 
 /-! ### Non-vacuity: concrete instances (tests of the statements and of their hypotheses, not the theorems) -/
 
@@ -964,7 +990,7 @@ example : rcvVoteforCand (fromVote (auditEnc ["C", "A", "B"]) "c") "c" "A" (remn
   decide
 -- three aligned cards (one without the contest): mean of the NEB assorter "A NEB B" is (1 + 1/2)/2 > 1/2, tallies 1 > 0
 example : Aligned "c" ["A", "B"] (fromVote (auditEnc ["A"]) "c", [("c", genEnc ["A"])]) :=
-  Or.inr ⟨["A"], by decide, by decide, by decide⟩
+  Or.inr ⟨["A"], genEnc ["A"], by decide, by decide, by decide, by decide, SameMap.refl_genEnc _ (by decide)⟩
 example : Aligned "c" ["A", "B"] (([] : Votes String String), ([] : GCvr String String)) :=
   Or.inl ⟨by decide, by decide⟩
 -- the two readers on the row  c,b1,C,A  of a contest with candidates A,B,C
